@@ -362,7 +362,8 @@ def sym_printer(vc):
                     kw['fields'] = SymList(str_seq(it, 'printfields'), [])
                 else:
                     kw[k] = v
-            func = it.call(pr, [], kw)
+            step = it.call(pr, [], kw)
+            func = step.env.lookup('func')      # the row printer handed to selected resources by printer.step
             r = mk_resource(it, 'rows')
             r.attrs['res'].attrs['schema'] = mk_schema_obj(it)
             tag = '[%s]' % ','.join(sorted(opts)) if opts else '[default]'
